@@ -36,12 +36,14 @@ def _table(case, scale=None, swap=False):
     return pa.table(data)
 
 
-def _close(a, b, tol=1e-7):
+def _close(a, b, tol=1e-7, floor=0.0):
+    """relative comparison; `floor` is the absolute noise level of the field (an effect that is exactly zero before a unit
+    change is a rounding error of the size of an ulp of the means afterwards)"""
     if math.isinf(a) or math.isinf(b):
         return a == b
     if math.isnan(a) or math.isnan(b):
         return math.isnan(a) and math.isnan(b)
-    return abs(a - b) <= tol * max(abs(a), abs(b), 1e-300)
+    return abs(a - b) <= tol * max(abs(a), abs(b), 1e-300) + floor
 
 
 @H.under_contrary_config
@@ -55,16 +57,17 @@ def _run_case(case):
     r = m.analyze(_table(case), 0, 1, "variant")
     bad = []
     r1 = m.analyze(_table(case, {x: c}), 0, 1, "variant")
+    level = max(abs(r.control), abs(r.treatment), 1e-300)        # magnitude of the means: their ulp is the noise of the effect
     for f in ("pvalue", "statistic", "rel_effect_size", "rel_effect_size_ci_lower", "rel_effect_size_ci_upper"):
-        if not _close(getattr(r1, f), getattr(r, f)):
+        if not _close(getattr(r1, f), getattr(r, f), floor=1e-9):
             bad.append((f"scale x{c}: {f} changed", getattr(r1, f), getattr(r, f)))
     for f in ("control", "treatment", "effect_size", "effect_size_ci_lower", "effect_size_ci_upper"):
-        if not _close(getattr(r1, f), c * getattr(r, f)):
+        if not _close(getattr(r1, f), c * getattr(r, f), floor=1e-12 * abs(c) * level):
             bad.append((f"scale x{c}: {f} not multiplied", getattr(r1, f), c * getattr(r, f)))
     if y is not None:
         r2 = m.analyze(_table(case, {x: c, y: c}), 0, 1, "variant")
         for f in meanx.RES_FIELDS:
-            if not _close(getattr(r2, f), getattr(r, f)):
+            if not _close(getattr(r2, f), getattr(r, f), floor=1e-9 if f in ("pvalue", "statistic") or f.startswith("rel_") else 1e-12 * level):
                 bad.append((f"numerator and denominator x{c}: {f} changed", getattr(r2, f), getattr(r, f)))
     ms = tt.RatioOfMeans(x, y, cx, cy, alternative=MIRROR[cfg["alternative"]], **kw)
     r3 = ms.analyze(_table(case, swap=True), 0, 1, "variant")
